@@ -476,7 +476,9 @@ class MarkdownNormalizer(Renderer):
 
         # Preserve code content without reformatting.
         code_child = cast(inline.RawText, element.children[0])
-        code_content = code_child.children.rstrip("\n")
+        # Drop only the newline that ends the last line: blank lines at the end of the code
+        # are content.
+        code_content = code_child.children.removesuffix("\n")
         lang = element.lang if isinstance(element, block.FencedCode) else ""
         extra = element.extra if isinstance(element, block.FencedCode) else ""
         extra_text = f" {extra}" if extra else ""
@@ -507,7 +509,7 @@ class MarkdownNormalizer(Renderer):
         empty_line_prefix = self._second_prefix.rstrip()
         # Only "\n" separates code lines; `str.splitlines()` would also break lines at form
         # feeds, U+2028 and similar characters and so alter the code.
-        for line in code_content.split("\n") if code_content else []:
+        for line in code_content.split("\n") if code_child.children else []:
             if line:
                 lines.append(f"{self._second_prefix}{line}")
             else:
